@@ -195,11 +195,18 @@ def resNameOk (E : Enc) (a : SAttr) : Bool :=
     | none => true
     | some n => decide (n = a.name) && (a.ns.isSome || !a.name.contains 0x5F) && decide (a.name.head? ≠ some 0x5F)
 
+/-- the attribute's value is an XML string: the string of a TYPE_STRING value; the rendering of a float / dimension / fraction
+    (property C27; abstract here); the renderings of the other types always are (`formatValue_legal`) -/
+def valueOk (opq : Nat → Nat → Str) (a : SAttr) : Bool :=
+  if a.ty = 3 then decide (LegalValue a.str)
+  else if a.ty = 4 ∨ a.ty = 5 ∨ a.ty = 6 then decide (LegalValue (opq a.ty a.data))
+  else true
+
 def wfAttr (opq : Nat → Nat → Str) (E : Enc) (a : SAttr) : Bool :=
   wfNs E a.ns && decide (a.name ∈ E.strings) && decide (LegalName a.name) && resNameOk E a
     && decide (a.ty < 256) && decide (a.raw < 2 ^ 32) && decide (a.data < 2 ^ 32)
     && (decide (a.ty ≠ 3) || decide (a.str ∈ E.strings))
-    && decide (LegalValue (formatValue opq a.ty a.data a.str))
+    && valueOk opq a
 
 /-- a namespace declaration: a plain prefix bound to a plain URI -/
 def wfDecl (E : Enc) (d : Str × Str) : Bool :=
